@@ -90,7 +90,6 @@ struct Reg { inst: Inst, refcounted: bool, handles: usize, /// handles that may 
 struct InstM
 {
     origin: Origin,
-    flavour: Flavour,
     /// the harness holds a `SystemCommand` for it
     known: bool,
     created: bool,
@@ -268,7 +267,6 @@ pub struct Checker<'a>
     pub sys: SysModel,
 }
 
-const OWN_C03: &[&str] = &["C03"];
 
 macro_rules! fail {
     ($self:ident, $prop:expr, $rule:expr, $also:expr, $($arg:tt)*) => {{
@@ -284,7 +282,7 @@ impl<'a> Checker<'a>
     pub fn new(prog: &'a Program, trace: &'a [Ev], hooks: bool) -> Self
     {
         let insts = prog.insts.iter().map(|d| InstM {
-            origin: d.origin, flavour: d.flavour, known: false, created: false, alive: false, doomed: false, limbo: false, busy: false, runs: 0,
+            origin: d.origin, known: false, created: false, alive: false, doomed: false, limbo: false, busy: false, runs: 0,
             once_fired: false, real: None, canary: false, chain_doomed: false, revoked_keys: Vec::new(), kinds_this_tree: 0,
         }).collect();
         Checker {
@@ -783,11 +781,6 @@ impl<'a> Checker<'a>
         self.seq += 1;
         self.stats.deliveries += 1;
         Delivery { target, cause, optional, holds, sender: self.sender, seq: self.seq, blocked_by: 0 }
-    }
-
-    fn body_matches(&self, ev: &Ev, d: &Delivery) -> bool
-    {
-        match ev { Ev::Body { inst, s, .. } => *inst == d.target && *s == self.expected_sample(&d.cause), _ => false }
     }
 
     fn removal_listeners_now(&self, ent: EntId, c: C) -> Vec<Inst>
@@ -2142,7 +2135,6 @@ impl<'a> Checker<'a>
 
 }
 
-pub(crate) type MRes<T> = Res<T>;
 pub(crate) fn bail<T>(s: &str) -> Res<T> { Err(Stop::Bail(Bail(s.into()))) }
 
 /// Reference state of the syscall family.
